@@ -64,7 +64,7 @@ func init() {
 	}
 	register(&PropSpec{
 		ID: "C08",
-		Explanation: "Decides, for all paths of both routers: UserInfo answers with claims, introspection stores Active=true (the only write to Active, table-checked) and revocation answers 200 only after the presented token was resolved by one of the three readers (decrypted 'id:subject' pair of exactly two parts, or a JWT verified by VerifyAccessToken: issuer, signature, expiry) and the corresponding storage call succeeded with that token id/subject; RevokeToken is called with the authenticated client id (that a GetRefreshTokenInfo error other than ErrInvalidRefreshToken is not skipped is decided by C10's storage-error rule); logout redirects only after ValidateEndSessionRequest and a successful session termination for that session. Liveness itself (expiry/revocation state) lives in the storage and is not decided.",
+		Explanation: "Decides, for all paths of both routers: UserInfo answers with claims, introspection stores Active=true (the only write to Active, table-checked) and revocation answers 200 only after the presented token was resolved by one of the three readers (decrypted 'id:subject' pair of exactly two parts, or a JWT verified by VerifyAccessToken: issuer, signature, expiry) and the corresponding storage call succeeded with that token id/subject; RevokeToken is called with the authenticated client id (that a GetRefreshTokenInfo error other than ErrInvalidRefreshToken is not skipped is decided by C10's storage-error rule); logout redirects only after ValidateEndSessionRequest and a successful session termination for that session. Liveness itself (expiry/revocation state) lives in the storage and is not decided. Round 3: the caller-authentication obligations of introspection (owned by C05) and the shared claim predicates (exp, iss) are part of this verdict; every endpoint route is registered behind the IssuerInterceptor (token verification reads the issuer from the context); the access-token verifier's key set is application-supplied or the provider's storage-backed key set.",
 		RuleText:    "obligation = (rule, function, sink site); non-trivial when guard facts were needed",
 		Assumptions: []string{"the storage refuses expired/revoked tokens in SetUserinfoFromToken / SetIntrospectionFromToken / TokenRequestByRefreshToken"},
 		Trusted:     []string{"go/types, go/cfg (x/tools v0.50.0)", "Storage implementation"},
